@@ -3024,6 +3024,15 @@ evhttp_make_request(struct evhttp_connection *evcon,
 	req->type = type;
 	if (req->uri != NULL)
 		mm_free(req->uri);
+	req->uri = NULL;
+	/* The URI goes into the request line as it is: a line break in it
+	 * would end that line and let the rest pass as header fields or as
+	 * another request. */
+	if (strpbrk(uri, "\r\n") != NULL) {
+		event_warnx("%s: line break in the URI", __func__);
+		evhttp_request_free_auto(req);
+		return (-1);
+	}
 	if ((req->uri = mm_strdup(uri)) == NULL) {
 		event_warn("%s: strdup", __func__);
 		evhttp_request_free_auto(req);
